@@ -312,7 +312,14 @@ def make_file_pair(rng, fmt, workdir, n=None, pos_cls=None):
     noise = (0.0 if rng.random() < .1 else 10.0**rng.uniform(-4, -0.5)) * ext
     p = ref["p"][idx] + rng.normal(size=(len(idx), 3)) * noise
     R = np.array([ref["R"][i] @ rm.rodrigues(gen.rand_axis(rng), rng.uniform(0, 0.5)) for i in idx])
-    if rng.random() < .7:
+    if rng.random() < .06:
+        # an estimate that is almost the reference: a small rigid offset (tiny compared with the
+        # distance from the origin for UTM-like data), orientations equal to ~1e-8
+        A = rm.se3(rm.rodrigues(gen.rand_axis(rng), 10.0**rng.uniform(-9, -6)), rng.normal(size=3) * ext * 10.0**rng.uniform(-3, -0.5))
+        c = ref["p"].mean(axis=0)
+        p = (A[:3, :3] @ (ref["p"][idx] - c).T).T + c + A[:3, 3]
+        R = np.array([A[:3, :3] @ ref["R"][i] for i in idx])
+    elif rng.random() < .7:
         A = gen.rand_se3(rng, tscale=ext)
         s = 10.0**rng.uniform(-0.5, 0.5)
         p = (A[:3, :3] @ p.T).T / s + A[:3, 3]
@@ -390,7 +397,7 @@ def parse_inputs(fp):
     return ref, est, fp["fmt"] != "kitti"
 
 
-def draw_common_options(rng, fp):
+def draw_common_options(rng, fp, force=()):
     """algorithm options shared by evo_ape / evo_rpe; returns (argv list, opts dict)"""
     o = {"align": False, "correct_scale": False, "align_origin": False, "n_to_align": -1,
          "downsample": None, "motion_filter": None, "t_max_diff": 0.01, "t_offset": 0.0,
@@ -419,11 +426,13 @@ def draw_common_options(rng, fp):
         argv += ["--motion_filter", repr(d), repr(a)]
     if fp["fmt"] != "kitti":
         o["t_max_diff"] = float(fp["dt"] * 10.0**rng.uniform(-1.5, 0.5)) if rng.random() < .8 else 0.01
-        argv += ["--t_max_diff", repr(o["t_max_diff"])]
+        if rng.random() < .07:
+            o["t_max_diff"] = 0.0  # legal: only identical stamps are associated
+        argv += ["--t_max_diff", ["0", "0.0"][rng.integers(2)] if o["t_max_diff"] == 0 else repr(o["t_max_diff"])]
         if fp["offset"] != 0.0 and rng.random() < .9:
             o["t_offset"] = fp["offset"]
             argv += ["--t_offset", "%.9f" % o["t_offset"]]
-        if rng.random() < .3:
+        if rng.random() < .3 or "crop" in force:
             tr = fp["t_ref"]
             a, b = sorted(rng.uniform(tr[0], tr[-1], size=2).tolist())
             if rng.random() < .7 and a > 0:
@@ -602,7 +611,7 @@ def ape_cli(run, case, rng, work):
         fmt = fp["fmt"]
     else:
         fp = make_file_pair(rng, fmt, work)
-    argv_o, o = draw_common_options(rng, fp)
+    argv_o, o = draw_common_options(rng, fp, force=case.get("force_options", ()))
     rel_cli = list(CLI_REL)[rng.integers(len(CLI_REL))]
     relation = CLI_REL[rel_cli]
     unit = None
